@@ -8,6 +8,9 @@ executable models the driver runs (`handshake`, `adNegotiate`, `udpObs`, `buildO
 same predicates (`holdsHs`, `holdsAd`, `holdsUdp`, `holdsBuild`) the driver applies to the
 implementation's observations.
 -/
+-- one simp set serves several match arms; unused members in one arm are expected
+set_option linter.unusedSimpArgs false
+
 namespace Tunnox.C20
 open Gen
 
